@@ -22,6 +22,10 @@ func C02(c *mc.Ctx) {
 	}
 	runIC(c, "C02", c02Oracle, fix.Options{Audit: false}, "icmc", alphabet, depth)
 	runIC(c, "C02", c02Oracle, fix.Options{Audit: true}, "icmc-audit", alphabet, depth-1)
+	// a pair whose destination refuses the source (blacklist): the request begins as failed - and is index-checked
+	// like any other (duplicate / future / zero / huge index rejected without effect)
+	runIC(c, "C02", c02Oracle, fix.Options{Audit: false}, "icmc-blocked-pair",
+		[]string{"req:p2:n:0", "req:p2:d:0", "req:p2:f:0", "req:p2:z:0", "req:p2:h:0", "rc:p2:n:f", "rc:p2:d:f", "req:p1:n:0"}, depth-1)
 	// a pair whose SOURCE service is registered as unordered (destination ordered)
 	runIC(c, "C02", c02Oracle, fix.Options{Audit: false}, "icmc-unordered-source",
 		[]string{"req:p6:n:0", "rc:p6:n:s", "rc:p6:f:s", "rc:p6:d:s", "rc:p6:u:s", "req:p6:d:0", "req:p6:f:0", "rc:p6:n:f", "req:p6:n:0+req:p6:n:0", "req:p1:n:0", "rc:p6:f:s+rc:p6:n:s"}, depth-1)
